@@ -38,6 +38,21 @@ def overlay_provider(base, overlay):
     return get
 
 
+def clone_ast(node):
+    """structural copy of an AST (fields and positions), ignoring the back links (_parent) the model attaches"""
+    if isinstance(node, list):
+        return [clone_ast(x) for x in node]
+    if not isinstance(node, ast.AST):
+        return node
+    new = type(node)()
+    for fld, val in ast.iter_fields(node):
+        setattr(new, fld, clone_ast(val))
+    for a in ("lineno", "col_offset", "end_lineno", "end_col_offset"):
+        if hasattr(node, a):
+            setattr(new, a, getattr(node, a))
+    return new
+
+
 def _is_registry_expr(n):
     """<obj>._g.attrs  or  <obj>._g.attrs["k"]  with <obj> a plain name"""
     if isinstance(n, ast.Subscript) and isinstance(n.slice, ast.Constant) and isinstance(n.slice.value, str):
@@ -76,7 +91,7 @@ def inline_registry_aliases(tree):
         class Sub(ast.NodeTransformer):
             def visit_Name(self, n):
                 if isinstance(n.ctx, ast.Load) and n.id in alias:
-                    return ast.copy_location(copy.deepcopy(alias[n.id].value), n)
+                    return ast.copy_location(clone_ast(alias[n.id].value), n)
                 return n
 
             def visit_Assign(self, n):
@@ -120,7 +135,7 @@ def desugar_ifexp(stmt):
         return None
 
     def build(pick):
-        c = copy.deepcopy(stmt)
+        c = clone_ast(stmt)
         cur = c
         for fld, i in path[:-1]:
             cur = getattr(cur, fld) if i is None else getattr(cur, fld)[i]
@@ -190,7 +205,7 @@ def inline_pure_aliases(fn, keep=()):
     followed by `off[i]` reads like `pstate["off"][i]`.  Behaviour-preserving by construction; used by shape-matching
     rules so that an alias does not change what they see."""
     import copy
-    fn = copy.deepcopy(fn)
+    fn = clone_ast(fn)
     binds = {}
     for x in ast.walk(fn):
         if isinstance(x, ast.Name) and isinstance(x.ctx, (ast.Store, ast.Del)):
@@ -220,12 +235,25 @@ def inline_pure_aliases(fn, keep=()):
         return False
     params = {a.arg for a in fn.args.posonlyargs + fn.args.args + fn.args.kwonlyargs}
     alias = {}
-    for s in fn.body:
+    for s in ast.walk(fn):
         if isinstance(s, ast.Assign) and len(s.targets) == 1 and isinstance(s.targets[0], ast.Name) and pure(s.value) and not isinstance(s.value, ast.Name):
             nm = s.targets[0].id
             free = {y.id for y in ast.walk(s.value) if isinstance(y, ast.Name)}
-            if binds.get(nm) == 1 and nm not in params and nm not in keep and nm not in stored_roots \
-                    and all((binds.get(f, 0) == 0 or (f in alias)) and f not in stored_roots for f in free):
+            def stable(f):
+                if f in stored_roots:
+                    return False
+                if binds.get(f, 0) == 0 or f in alias:
+                    return True
+                if binds.get(f) != 1:
+                    return False
+                # one binding site, textually before the alias; a loop variable only for aliases defined inside that loop
+                for b in ast.walk(fn):
+                    if isinstance(b, ast.For) and f in {y.id for y in ast.walk(b.target) if isinstance(y, ast.Name)}:
+                        return b.lineno < s.lineno <= getattr(b, "end_lineno", s.lineno)
+                    if isinstance(b, ast.Assign) and any(isinstance(y, ast.Name) and y.id == f and isinstance(y.ctx, ast.Store) for t in b.targets for y in ast.walk(t)):
+                        return b.lineno < s.lineno
+                return False
+            if binds.get(nm) == 1 and nm not in params and nm not in keep and nm not in stored_roots and all(stable(f) for f in free):
                 alias[nm] = s
     if not alias:
         return fn
@@ -233,13 +261,33 @@ def inline_pure_aliases(fn, keep=()):
     class Sub(ast.NodeTransformer):
         def visit_Name(self, n):
             if isinstance(n.ctx, ast.Load) and n.id in alias:
-                return ast.copy_location(copy.deepcopy(Sub().visit(copy.deepcopy(alias[n.id].value))), n)
+                return ast.copy_location(clone_ast(Sub().visit(clone_ast(alias[n.id].value))), n)
             return n
-    for s in list(fn.body):
-        if any(s is a for a in alias.values()):
-            continue
-        Sub().visit(s)
-    fn.body = [s for s in fn.body if not any(s is a for a in alias.values())]
+    drop = {id(a) for a in alias.values()}
+
+    def rewrite(stmts):
+        out = []
+        for s in stmts:
+            if id(s) in drop:
+                continue
+            for fld in ("body", "orelse", "finalbody"):
+                blk = getattr(s, fld, None)
+                if isinstance(blk, list) and blk and isinstance(blk[0], ast.stmt):
+                    setattr(s, fld, rewrite(blk) or [ast.copy_location(ast.Pass(), s)])
+            if isinstance(s, ast.Try):
+                for h in s.handlers:
+                    h.body = rewrite(h.body) or [ast.copy_location(ast.Pass(), s)]
+            # expressions of this statement itself (not of nested statements, already done)
+            for fld, val in ast.iter_fields(s):
+                if fld in ("body", "orelse", "finalbody", "handlers"):
+                    continue
+                if isinstance(val, ast.AST):
+                    setattr(s, fld, Sub().visit(val))
+                elif isinstance(val, list):
+                    setattr(s, fld, [Sub().visit(x) if isinstance(x, ast.AST) else x for x in val])
+            out.append(s)
+        return out
+    fn.body = rewrite(fn.body)
     ast.fix_missing_locations(fn)
     return fn
 
@@ -279,6 +327,19 @@ class Model:
                     self.consts[(mod, n.targets[0].id)] = n.value
 
     # ---- lookups
+    def norm_method(self, cls, name):
+        """own_method with pure local aliases inlined (cached): what shape-matching rules should read"""
+        cache = self.__dict__.setdefault("_norm_methods", {})
+        if (cls, name) not in cache:
+            fn = self.own_method(cls, name)
+            if fn is not None:
+                fn = inline_pure_aliases(fn)
+                for node in ast.walk(fn):
+                    for ch in ast.iter_child_nodes(node):
+                        ch._parent = node
+            cache[(cls, name)] = fn
+        return cache[(cls, name)]
+
     def rel(self, mod):
         return FILES[mod]
 
